@@ -203,7 +203,9 @@ def gen_c06(rng, tier, mult=1):
         value = rng.choice(VALUES)
         req = c06_request(rng, cfg, mode, value, "valid" if style == "badcfg" else style)
         proto = "tftp" if rng.random() < 0.45 else "http"
-        if proto == "tftp" and rng.random() < 0.6 and req.startswith("/"):
+        if rng.random() < 0.12 and req.startswith("/"):
+            req = "/" * rng.choice([1, 1, 2, 3]) + req           # empty leading segments (both protocols alike)
+        elif proto == "tftp" and rng.random() < 0.6 and req.startswith("/"):
             req = req[1:] if rng.random() < 0.8 else "%2f" + req[1:]
         case = {"proto": proto, "cfg": cfg, "tree": P.TREE_C06, "req": req,
                 "method": "GET" if rng.random() < 0.93 else rng.choice(["POST", "PUT", "DELETE"]),
